@@ -5,7 +5,7 @@
    Source a: a plain tree, with a per-rank format flag (C/U), per-rank shape and a leaf default.
    Body: a function from the coordinate path of an offered reference to what the loop body does
    with it (leaf rank: leave / assign v / accumulate v; interior rank: leave / run the nested
-   populate loop).  A traversal is modelled as the list of yields (events) in the order they
+   populate loop / getPayloadRef a point below it and write).  A traversal is modelled as the list of yields (events) in the order they
    happen, each with a snapshot of the whole destination at the moment of the yield.
 
    Sources: iterators.py 16-32 (__iter__ by format), 44-59/122-188 (iterOccupancy/iterRange),
@@ -18,7 +18,9 @@ Import ListNotations.
 Open Scope Z_scope.
 
 (* ---- the loop body, per offered reference *)
-Inductive act := ASkip | AWrite (w : wr) | ADescend.
+(* ARefBelow pt w: at an interior reference, the body calls zref.getPayloadRef(pt...) on the offered
+   sub-fiber and writes w through the leaf reference it gets (w may write the default) *)
+Inductive act := ASkip | AWrite (w : wr) | ADescend | ARefBelow (pt : list Z) (w : wr).
 Definition body := list Z -> act.
 
 (* ---- the source tensor's attributes *)
@@ -101,6 +103,14 @@ Section Loop.
       let '(sub', nx2, rk2, evs) :=
         inner (path ++ [c]) bp (fun s => plug (set_nth pos (c, INode id ow s) es1)) sub nx1 rk1 in
       (INode id ow sub', nx2, rk2, evs)
+    | INode id ow sub, ARefBelow pt w =>
+      (* fiber.py 868-930 getPayloadRef on the sub-fiber (Store.get_ref: missing elements are
+         created with _createDefault and registered with their ranks), then the write; only
+         full points are modelled *)
+      if Nat.eqb (S lvl + length pt) n then
+        let '(sub', nx2, rk2, _) := get_ref n dz w (S lvl) pt sub nx1 rk1 in
+        (INode id ow sub', nx2, rk2, [])
+      else (zp, nx1, rk1, [])
     | _, _ => (zp, nx1, rk1, [])
     end.
 
